@@ -140,6 +140,9 @@ func (x *Exec) violate(prop, oracle, class, detail string, facts map[string]stri
 	if x.reusedRun && prop == "C08" {
 		return
 	}
+	if x.Sc != nil && x.Sc.OnlyOwnOracles && prop != x.Sc.Property && oracle != "X0" && oracle != "R1" {
+		return
+	}
 	if x.twoPass && prop != "C06" && oracle != "X0" && oracle != "R1" {
 		// the history contains a run whose executor made an unrecorded first pass (C06 two-pass drivers):
 		// snapshots and the cache model do not describe what that pass did, so only the call-sequence
